@@ -10,7 +10,14 @@ void suite_force(int), suite_args(int), suite_hist(int);
 void suite_ledger(int), suite_fault(int), suite_pure(int), suite_isal(int), suite_conc(int);
 void suite_rt(int), suite_nsc(int), suite_recon(int), suite_rsmat(int), suite_xor(int), suite_need(int);
 
+/* instance churn on its own (plain build: glibc hands freed blocks out again at once, which the
+   sanitizer's quarantine prevents) */
+void churn(const char *prop, int tier, int rs_only);
+static void suite_churn04(int tier) { for (int r = 0; r < (tier ? 30 : 8); r++) churn("C04", tier, 1); }
+static void suite_churn15(int tier) { for (int r = 0; r < (tier ? 30 : 8); r++) churn("C15", tier, 0); }
+
 static struct { const char *name; void (*fn)(int); } SUITES[] = {
+    { "churn04", suite_churn04 }, { "churn15", suite_churn15 },
     { "wire", suite_wire }, { "hdr", suite_hdr }, { "cksum", suite_cksum },
     { "endian", suite_endian }, { "valid", suite_valid },
     { "rt", suite_rt }, { "nsc", suite_nsc }, { "recon", suite_recon }, { "rsmat", suite_rsmat },
